@@ -45,6 +45,8 @@ struct RunOut {
     epochs: Vec<usize>,
     /// tracks held (live store + wasted store) after the operation; None where the run was not quiescent
     totals: Vec<Option<usize>>,
+    /// stored gallery entries at the end of the run (= distance records one candidate gets back, summed over shards)
+    final_gallery_entries: usize,
 }
 
 fn drain(pending: &mut Vec<(usize, std::sync::mpsc::Receiver<Vec<(u64, Vec<Rec>)>>)>, out: &mut RunOut) -> bool {
@@ -60,13 +62,14 @@ fn drain(pending: &mut Vec<(usize, std::sync::mpsc::Receiver<Vec<(u64, Vec<Rec>)
 /// `pipelined` (batch kinds only): every predict is a one-scene batch whose result object is handed to a consumer thread
 /// started before the call; the next batch is submitted without waiting for the previous results (the second retrieval
 /// discipline the batch API allows). Lifecycle operations wait until everything submitted so far has been retrieved.
-fn run(cfg: &Cfg, ops: &[Op], plan: &Plan, pipelined: bool, ctl: Option<&Controller>, rep: &mut Report, keep_pre: bool, wd: Option<&Watchdog>) -> Option<RunOut> {
+/// `keep_pre`: -2 = snapshot the store before every predict, -1 = never, k >= 0 = only before operation k
+fn run(cfg: &Cfg, ops: &[Op], plan: &Plan, pipelined: bool, ctl: Option<&Controller>, rep: &mut Report, keep_pre: i64, wd: Option<&Watchdog>) -> Option<RunOut> {
     let gated = matches!(plan, Plan::WorkerLast(_) | Plan::WorkerFirst(_));
     if let (Some(w), false) = (wd, gated) {
         w.arm(format!("cfg={:?} plan={:?} pipelined={}", cfg, plan, pipelined));
     }
     let mut trk = AnyTracker::new(cfg);
-    let mut out = RunOut { obs: vec![], pres: vec![], epochs: vec![], totals: vec![] };
+    let mut out = RunOut { obs: vec![], pres: vec![], epochs: vec![], totals: vec![], final_gallery_entries: 0 };
     let mut pending = vec![];
     let set_mode = |c: &Controller, ndets: Option<usize>| match (plan, ndets) {
         (Plan::Free, _) => c.set_mode(Mode::Record),
@@ -81,7 +84,7 @@ fn run(cfg: &Cfg, ops: &[Op], plan: &Plan, pipelined: bool, ctl: Option<&Control
     for (k, op) in ops.iter().enumerate() {
         match op {
             Op::Predict { scene, dets } => {
-                out.pres.push(if keep_pre { trk.live() } else { vec![] });
+                out.pres.push(if keep_pre == -2 || keep_pre == k as i64 { trk.live() } else { vec![] });
                 out.epochs.push(if pipelined { 0 } else { trk.epoch(*scene) + 1 });
                 if pipelined && !dets.is_empty() {
                     out.obs.push(Obs::Recs(vec![]));
@@ -151,11 +154,35 @@ fn run(cfg: &Cfg, ops: &[Op], plan: &Plan, pipelined: bool, ctl: Option<&Control
     if let (Some(c), true) = (ctl, pipelined) {
         let _ = c.finish();
     }
+    out.final_gallery_entries = if keep_pre != -1 { trk.live().iter().map(|t| t.gallery.len()).sum() } else { 0 };
     drop(trk);
     if let Some(w) = wd {
         w.disarm();
     }
     Some(out)
+}
+
+/// a history made for gallery volume: `nobj` well separated objects, all detected in every frame with a feature that is
+/// always collected, so that after `frames` frames every candidate gets back nobj x frames distance records
+fn long_gallery_ops(rng: &mut Rng, nobj: usize, frames: usize) -> Vec<Op> {
+    let protos: Vec<Vec<f32>> = (0..nobj).map(|_| {
+        let v: Vec<f64> = (0..4).map(|_| rng.normal()).collect();
+        let n = v.iter().map(|x| x * x).sum::<f64>().sqrt().max(1e-9);
+        v.iter().map(|x| (x / n) as f32).collect()
+    }).collect();
+    let mut pos: Vec<(f64, f64, f64, f64)> = (0..nobj).map(|k| ((k % 6) as f64 * 300.0 + 100.0, (k / 6) as f64 * 300.0 + 100.0, rng.uniform(-1.0, 1.0), rng.uniform(-1.0, 1.0))).collect();
+    let mut ops = vec![];
+    for _ in 0..frames {
+        let mut dets = vec![];
+        for (k, p) in pos.iter_mut().enumerate() {
+            p.0 += p.2;
+            p.1 += p.3;
+            let b = DBox { xc: (p.0 + rng.normal() * 0.3) as f32, yc: (p.1 + rng.normal() * 0.3) as f32, angle: None, aspect: 0.8, h: (60.0 * rng.uniform(0.99, 1.01)) as f32, conf: 1.0 };
+            dets.push(Det { b, custom: Some(k as i64), feature: Some(protos[k].iter().map(|x| x + (rng.normal() * 0.03) as f32).collect()), quality: Some(0.9), truth: k as u32 });
+        }
+        ops.push(Op::Predict { scene: 0, dets });
+    }
+    ops
 }
 
 /// variant-run ids -> reference-run ids (ids the reference never saw become fresh ids, i.e. new tracks)
@@ -170,7 +197,7 @@ fn translate(recs: &[Rec], rev: &HashMap<u64, u64>) -> Vec<Rec> {
 fn main() {
     let cli = Cli::parse();
     let mut rep = Report::new("C05", &cli);
-    rep.note("rule", json!("case = Sort / VisualSort / BatchSort / BatchVisualSort history of 20..50 operations (predict calls from the crowd / convoy / crossing / random presets over 1..2 scenes, no bit-identical detections; a third of the histories also contain skip_epochs, wasted and idle_tracks calls, whose return values - and the number of tracks held - are compared as well; a quarter of the visual histories have 60..80 objects with galleries of up to 64 features, compared over shard counts 1 / 2 / 4 / 8). Batch kinds are driven with one-scene batches, sequentially and pipelined (consumer thread per batch, next batch submitted before the previous results are read); their ids are compared up to the incrementally built bijection. Reference run: 1 shard, no perturbation. The same history is then run for every shard count 2..8 under several schedules installed at the guarded worker schedule points: free, seeded random delay plans, and gate scripts that force a chosen worker to deliver all of its distance chunks last (or first), so the arrival order of the partial results - which feeds matrix row/column order and hash-map insertion order - is varied systematically. Records must be identical to the reference, track ids included. A grouping difference is handed to the explain-divergence oracle (violation unless both outcomes are valid optimal associations per the C02 / C12 references = near tie, counted); equal grouping with different numbers or ids is always a violation. Non-trivial: (history, shard count, plan) runs with >= 2 shards whose calls had >= 2 candidates; distinct chunk-arrival-order signatures are counted."));
+    rep.note("rule", json!("case = Sort / VisualSort / BatchSort / BatchVisualSort history of 20..50 operations (predict calls from the crowd / convoy / crossing / random presets over 1..2 scenes, no bit-identical detections; a third of the histories also contain skip_epochs, wasted and idle_tracks calls, whose return values - and the number of tracks held - are compared as well; some visual histories (two per quick run, a quarter in the thorough tier) have 16 objects whose galleries grow to 285 features - about 4500 distance records per candidate from a single shard -, compared between 1 shard and one of 2 / 3 / 4 / 8 shards). Batch kinds are driven with one-scene batches, sequentially and pipelined (consumer thread per batch, next batch submitted before the previous results are read); their ids are compared up to the incrementally built bijection. Reference run: 1 shard, no perturbation. The same history is then run for every shard count 2..8 under several schedules installed at the guarded worker schedule points: free, seeded random delay plans, and gate scripts that force a chosen worker to deliver all of its distance chunks last (or first), so the arrival order of the partial results - which feeds matrix row/column order and hash-map insertion order - is varied systematically. Records must be identical to the reference, track ids included. A grouping difference is handed to the explain-divergence oracle (violation unless both outcomes are valid optimal associations per the C02 / C12 references = near tie, counted); equal grouping with different numbers or ids is always a violation. Non-trivial: (history, shard count, plan) runs with >= 2 shards whose calls had >= 2 candidates; distinct chunk-arrival-order signatures are counted."));
     rep.note("assumptions", json!(["inputs without exact ties (generic float positions); residual near-ties are recognised by the reference objective and counted, capped at 0.1% of compared calls"]));
     let ctl = if cli.small { None } else { Some(Controller::install()) };
     let wd = if cli.small { None } else { Some(Watchdog::start(&cli, "C05", ctl.clone())) };
@@ -184,7 +211,9 @@ fn main() {
             _ => Kind::Sort,
         };
         // (the case index is per process, so rare variants are drawn, not taken modulo)
-        let wide = rng.chance(0.15);
+        // (quick tier: two of the processes run one long-gallery history each, see below)
+        let lg_pick = !cli.small && !cli.thorough() && cli.shard < 2 && idx == 2 + 3 * cli.shard;
+        let wide = rng.chance(0.15) && !lg_pick;
         let mut cfg = gen_cfg(&mut rng, kind);
         cfg.max_idle = 1 + rng.usize(3);
         cfg.shards = 1;
@@ -196,17 +225,20 @@ fn main() {
         }
         // a third of the histories mix lifecycle calls in (skip, wasted, idle): what they return is part of what the
         // tracker reports; many tracks then expire together and are collected across several shards at once
-        let lifecycle = !wide && rng.chance(0.35);
+        let lifecycle = !wide && !lg_pick && rng.chance(0.35);
         if lifecycle {
             cfg.max_idle = rng.usize(3);
             rep.count("histories_with_lifecycle_calls");
         }
-        // a quarter of the visual histories: many objects with long galleries (up to 64 stored features per track), so
+        // a quarter of the visual histories: 16 well separated objects detected in each of 285 frames with an always-collected feature (galleries of 285 features), so
         // that one candidate's partial result from one shard holds thousands of distance records with few shards and
         // far fewer with many
-        let long_gallery = kind.is_visual() && !wide && !lifecycle && !cli.small && rng.chance(0.25);
+        // (quick tier: two of the processes run one such history each; thorough tier: a quarter of the visual histories)
+        let long_gallery = kind.is_visual() && !wide && !lifecycle && !cli.small && if cli.thorough() { rng.chance(0.25) } else { lg_pick };
         if long_gallery {
-            cfg.vis.max_obs = 64;
+            cfg.vis.max_obs = 300;
+            // a threshold no pair exceeds: every (candidate, stored feature) pair yields a distance record
+            cfg.vis.metric = VisMetric::Euclid(10.0);
             cfg.vis.min_track_len = cfg.vis.min_track_len.min(4);
             cfg.vis.q_collect = 0.0;
             cfg.vis.q_use = 0.0;
@@ -214,7 +246,7 @@ fn main() {
             cfg.vis.own_collect = 0.0;
             cfg.vis.min_area = 0.0;
             cfg.max_idle = 3;
-            rep.count("histories_with_long_galleries(60..80 objects x up to 64 features)");
+            rep.count("histories_with_long_galleries(16 objects x 285 features)");
         }
         let w = WorldOpts {
             scenes: if long_gallery { 1 } else { 1 + rng.usize(2) },
@@ -225,26 +257,30 @@ fn main() {
             feat_dim: 4,
             duplicates: false,
             // about every 7th history has wide frames (36..45 objects): shards x detections exceeds a few hundred partial results
-            nobj: if long_gallery { 62 + rng.usize(18) } else if wide { 36 + rng.usize(10) } else if lifecycle { 4 + rng.usize(9) } else { 2 + rng.usize(6) },
-            steps: 40,
+            nobj: if long_gallery { 14 + rng.usize(3) } else if wide { 36 + rng.usize(10) } else if lifecycle { 4 + rng.usize(9) } else { 2 + rng.usize(6) },
+            steps: if long_gallery { 1200 } else { 40 },
             low_quality: false,
             avoid_coincident: kind.is_visual() && (cfg.vis.own_use + cfg.vis.own_collect > 0.0),
             low_conf,
             vary_nobj: false,
         };
-        let h = HistOpts { len: if cli.small { 3 } else if long_gallery { 72 } else if wide { 6 } else { 20 + rng.usize(31) }, lifecycle_ops: lifecycle, clear_wasted: false, auto_waste_ops: false, batches: false, empty_calls: true };
-        let ops = gen_history(&mut rng, &w, &h);
+        let h = HistOpts { len: if cli.small { 3 } else if long_gallery { 600 } else if wide { 6 } else { 20 + rng.usize(31) }, lifecycle_ops: lifecycle, clear_wasted: false, auto_waste_ops: false, batches: false, empty_calls: true };
+        let ops = if long_gallery { long_gallery_ops(&mut rng, 16, 285) } else { gen_history(&mut rng, &w, &h) };
         let npredict = ops.iter().filter(|o| matches!(o, Op::Predict { .. })).count();
         rep.eval();
         rep.count(&format!("histories/{:?}", kind));
-        let base = match run(&cfg, &ops, &Plan::Free, false, None, &mut rep, true, wd.as_deref()) {
+        let base = match run(&cfg, &ops, &Plan::Free, false, None, &mut rep, if long_gallery { ops.len() as i64 } else { -2 }, wd.as_deref()) {
             Some(b) => b,
             None => {
                 rep.violation(&format!("C05/{:?}/result-never-delivered", kind), idx, json!({"cfg": cfg.js(), "run": "reference"}));
                 continue;
             }
         };
-        let shard_counts: Vec<usize> = if cli.small { vec![3] } else if long_gallery { vec![2, 4, 8] } else { (2..=8).collect() };
+        if long_gallery {
+            // distance records one candidate gets back from the single shard of the reference run
+            rep.max("max_distance_records_per_candidate_and_shard(long galleries)", base.final_gallery_entries as f64);
+        }
+        let shard_counts: Vec<usize> = if cli.small { vec![3] } else if long_gallery { vec![*rng.pick(&[2usize, 3, 4, 8])] } else { (2..=8).collect() };
         'variants: for shards in shard_counts {
             let mut c2 = cfg.clone();
             c2.shards = shards;
@@ -267,7 +303,7 @@ fn main() {
                 plans.truncate(1);
             }
             for (plan, pipelined) in plans {
-                let out = match run(&c2, &ops, &plan, pipelined, ctl.as_deref(), &mut rep, false, wd.as_deref()) {
+                let out = match run(&c2, &ops, &plan, pipelined, ctl.as_deref(), &mut rep, -1, wd.as_deref()) {
                     Some(o) => o,
                     None => {
                         rep.violation(&format!("C05/{:?}/result-never-delivered", kind), idx, json!({"cfg": cfg.js(), "shards": shards, "plan": format!("{:?}", plan), "pipelined": pipelined}));
@@ -311,8 +347,14 @@ fn main() {
                                 // explain: is the variant's outcome a valid optimal association from the reference's
                                 // (quiescent) pre-state? A correct pipelined run acts on exactly that state as well.
                                 let bt = translate(b, &rev);
-                                let ja = judge_call(&cfg, *scene, base.epochs[k], dets, a, &base.pres[k]);
-                                let jb = judge_call(&cfg, *scene, base.epochs[k], dets, &bt, &base.pres[k]);
+                                // (long-gallery histories keep no per-call snapshots: the reference is replayed up to this call)
+                                let replay = if long_gallery { run(&cfg, &ops[..=k], &Plan::Free, false, None, &mut rep, k as i64, wd.as_deref()) } else { None };
+                                let pre_k: &Vec<LiveTrack> = match &replay {
+                                    Some(r) => &r.pres[k],
+                                    None => &base.pres[k],
+                                };
+                                let ja = judge_call(&cfg, *scene, base.epochs[k], dets, a, pre_k);
+                                let jb = judge_call(&cfg, *scene, base.epochs[k], dets, &bt, pre_k);
                                 match (ja, jb) {
                                     (Judgement::Valid, Judgement::Valid) | (Judgement::Undecidable(_), _) | (_, Judgement::Undecidable(_)) => rep.count("tie_divergences"),
                                     (Judgement::Invalid(sig, d), _) => rep.violation(&format!("C05/{:?}/grouping-differs/reference-run-invalid/{}", kind, sig), idx, json!({"ctx": c, "detail": d})),
